@@ -164,7 +164,7 @@ def parse_interactions(lines, comments='#', directed=False, delimiter=None, node
 
 
 def generate_snapshots(G, delimiter=' '):
-    for u, v, d in G.interactions():
+    for u, v, d in (G.out_interactions() if G.is_directed() else G.interactions()):
         if 't' not in d:
             raise NotImplemented
         for t in d['t']:
